@@ -98,9 +98,9 @@ func genSetup(rt *rapid.T, protos []string) Setup {
 
 func genBatch(rt *rapid.T) *Batch {
 	b := &Batch{Setup: genSetup(rt, []string{"Http1", "Http1", "Http1", "bolt", "bolt", "boltpp", "tcp", "tcp"})}
-	// "patient proxy": the timeouts are far beyond the batch (20 s, no per-try timeout), so nothing but the client's
-	// own disconnect ends a request whose upstream stalls - and every client gives up after a drawn delay. The
-	// admissions of a request whose client has gone are given back then, not when a timer eventually fires.
+	// "patient proxy": the timeouts are far beyond the batch (20 s, no per-try timeout) and every client gives up after a
+	// drawn delay: the disconnect paths run without a timer firing in the same moment. The books are compared once the
+	// stalled upstreams have been released.
 	patient := b.Proto != "tcp" && rapid.IntRange(0, 4).Draw(rt, "patientProxy") == 0
 	if patient {
 		b.GlobalMs, b.TryMs = 20000, 0
@@ -563,9 +563,14 @@ func runBatch(t ev.TB, part string, b *Batch) (classes []string, nontrivial bool
 		return nil, false, false
 	}
 	r.checkNegatives(desc)
-	// phase A0: every client is done while stalled upstream handlers are still parked
-	if !r.settle("all clients done, upstreams still stalled", r.requestsEnded(), desc) {
-		return nil, false, false
+	// phase A0: every client is done while stalled upstream handlers are still parked. Not with a patient proxy: there
+	// a request whose client has gone may go on until its upstream answers or the (20 s) timeout fires - the property
+	// asks for the matching decrement when the request ends, not for the request to end with its client (seen on the
+	// unchanged tree: a client that resets its connection right after sending leaves its request running).
+	if b.GlobalMs < 20000 {
+		if !r.settle("all clients done, upstreams still stalled", r.requestsEnded(), desc) {
+			return nil, false, false
+		}
 	}
 	r.release() // parked upstream handlers go on (late replies, closes)
 
